@@ -152,3 +152,23 @@ def list_ids(obj, out: set | None = None) -> set:
         for x in obj:
             list_ids(x, out)
     return out
+
+
+def scribble(obj, mark, seen: set | None = None) -> int:
+    """What a caller may do with a result it was handed: every list in it is overwritten in place
+    (one element longer, every element `mark`).  Returns how many lists were changed."""
+    if seen is None:
+        seen = set()
+    n = 0
+    if isinstance(obj, list):
+        if id(obj) in seen:
+            return 0
+        seen.add(id(obj))
+        for x in obj:
+            n += scribble(x, mark, seen)
+        obj[:] = [mark] * (len(obj) + 1)
+        n += 1
+    elif isinstance(obj, tuple):
+        for x in obj:
+            n += scribble(x, mark, seen)
+    return n
